@@ -795,13 +795,19 @@ impl LinkRelay<OutputHandle> {
                 let delivery_tag = transfer.delivery_tag.clone();
                 let transfer_more = transfer.more;
 
-                tx.send(LinkFrame::Transfer {
-                    input_handle: InputHandle::from(transfer.handle.clone()),
-                    performative: transfer,
-                    payload,
-                })
-                .await
-                .map_err(|_| LinkRelayError::UnattachedHandle)?;
+                let sent = tx
+                    .send(LinkFrame::Transfer {
+                        input_handle: InputHandle::from(transfer.handle.clone()),
+                        performative: transfer,
+                        payload,
+                    })
+                    .await;
+                if sent.is_err() {
+                    // The local link endpoint is gone (the receiver was dropped and its detach
+                    // is on its way). A delivery that was still in flight is discarded, it
+                    // must not end the session
+                    return Ok(None);
+                }
 
                 if !settled {
                     if let ReceiverSettleMode::Second = receiver_settle_mode {
